@@ -321,7 +321,7 @@ func (r *Run) Violation(signature, what string, replayCase any) bool {
 }
 
 func (r *Run) emitViolation(v *violation) {
-	dir := filepath.Join(r.Dir, "replays", r.ID)
+	dir := filepath.Join(envOr("VERIF_REPLAY_DIR", filepath.Join(r.Dir, "replays")), r.ID)
 	_ = os.MkdirAll(dir, 0o755)
 	path := filepath.Join(dir, fmt.Sprintf("%s-%d-%016x.json", r.Tier, r.Seed, hash64(v.Signature)))
 	doc := map[string]any{
@@ -468,7 +468,7 @@ func (r *Run) writeEvidence(rule string) {
 		cov["samples"] = []any{fmt.Sprintf("%+v", samples)}
 		b, _ = json.MarshalIndent(ev, "", " ")
 	}
-	dir := filepath.Join(r.Dir, "evidence")
+	dir := envOr("VERIF_EVIDENCE_DIR", filepath.Join(r.Dir, "evidence"))
 	_ = os.MkdirAll(dir, 0o755)
 	tmp := filepath.Join(dir, "."+r.ID+".json.tmp")
 	_ = os.WriteFile(tmp, append(b, '\n'), 0o644)
